@@ -87,7 +87,12 @@ func NewDest(s Schema, n int) *Dest {
 		rows[i] = sentinelRow(s)
 	}
 	p := FrameOf(s, rows)
-	return &Dest{s: s, parent: p, View: p.Slice(guardRows, guardRows+n), n: n}
+	// the destination's key prefix is the caller's business: it varies with the size (see vgen.NewDest)
+	view := p.Slice(guardRows, guardRows+n)
+	if len(s.Cols) > 0 {
+		view = view.Prefixed(1 + n%len(s.Cols))
+	}
+	return &Dest{s: s, parent: p, View: view, n: n}
 }
 
 // CheckGuards reports an error if a row outside the view was modified.
